@@ -455,6 +455,7 @@ def check(prop, tier, seed, replay=None):
                         "items are observed through iteration / indexing / platforms / tracks, channel maps through the public "
                         "pair iteration (EMG: through the encoded bytes, it has no public reader)"]
     if replay:
+        run.is_replay = True
         rp = json.load(open(replay))["replay"]
         tr = run_tour(rp["kind"], rp["labels"], rp["seed"])
         res, verdict = validate([tr])
